@@ -45,7 +45,10 @@ func ToString(bi *big.Int, precision int) string {
 	if fp.Sign() == 0 {
 		return s
 	}
-	frac := fp.Uint64()
+	if bi.Sign() < 0 && dp.Sign() == 0 {
+		s = "-" + s
+	}
+	frac := fp.Abs(&fp).Uint64()
 	trimmed := 0
 	for ; frac%10 == 0; frac /= 10 {
 		trimmed++
@@ -73,7 +76,7 @@ func FromString(s string, precision int) (*big.Int, error) {
 		return nil, ErrInvalidFormat
 	}
 	fp.Mul(fp, pow10(precision-len(parts[1])))
-	if bi.Sign() == -1 {
+	if strings.HasPrefix(parts[0], "-") {
 		return bi.Sub(bi, fp), nil
 	}
 	return bi.Add(bi, fp), nil
